@@ -16,7 +16,7 @@ type c04Profile struct {
 }
 
 // targets that may sit on shards and be moved: (series, total)
-var c04Movers = [][2]int64{{40, 40}, {10, 60}, {30, 30}}
+var c04Movers = [][2]int64{{40, 40}, {10, 60}, {30, 30}, {60, 60}, {60, 60}}
 
 var c04Profiles = []c04Profile{
 	{"empty", nil, 0},
@@ -27,6 +27,8 @@ var c04Profiles = []c04Profile{
 	{"fill90", nil, 90},
 	{"A+fill50", []int{0}, 50},
 	{"A+C+fill30", []int{0, 2}, 30},
+	{"D+D", []int{3, 4}, 0},    // targets alone exceed both limits: relief really moves something
+	{"A+C+D", []int{0, 2, 3}, 0},
 }
 
 // new unscraped targets (series, total)
@@ -51,7 +53,7 @@ func c04Gen(thorough bool) func(emit func(*h1.Scenario)) {
 			profs := c04Profiles
 			exs := extras
 			if n == 3 && !thorough {
-				profs = c04Profiles[:5]
+				profs = []c04Profile{c04Profiles[0], c04Profiles[1], c04Profiles[4], c04Profiles[8]}
 				exs = []int64{0, 75}
 			}
 			if n == 3 && thorough {
